@@ -278,7 +278,20 @@ func (ft *funcTrans) call(in ssa.CallInstruction, val *ssa.Call) {
 			ft.havocAllExcept(st, c.Preserves)
 		}
 		for _, a := range c.Assigns {
-			ft.havocDesignator(ecPre, a.E, st, pre)
+			func() {
+				defer func() {
+					if r := recover(); r != nil {
+						if ue, ok := r.(unsupportedErr); ok && c.Trusted && strings.Contains(string(ue), "unknown identifier") {
+							// a type-level designator of an assumed contract naming a package that is not part
+							// of this program (e.g. osmpbf.decoder.cData while verifying annotate): no such heap here
+							w.assumptions[fmt.Sprintf("assigns designator %s of %s names nothing in this program (%s)", a.Src, name, string(ue))] = true
+							return
+						}
+						panic(r)
+					}
+				}()
+				ft.havocDesignator(ecPre, a.E, st, pre)
+			}()
 		}
 		if !c.Pure {
 			ft.bumpAlloc(st)
@@ -494,6 +507,12 @@ func (ft *funcTrans) desigHeaps(ec *evalCtx, e Expr) []string {
 		if base.Sort.Kind == KSlice {
 			return []string{w.elemHeap(w.sortOf(base.Sort.Go.Underlying().(*types.Slice).Elem()))}
 		}
+		if base.Sort.Kind == KMap {
+			// m[..]: the contents of maps of this type (domain and values; type-level, coarse)
+			mt := base.Sort.Go.Underlying().(*types.Map)
+			d, v := w.mapHeaps(w.sortOf(mt.Key()), w.sortOf(mt.Elem()))
+			return []string{d, v}
+		}
 	case *EIndex:
 		base := ec.eval(x.X)
 		if base.Sort.Kind == KSlice {
@@ -529,6 +548,12 @@ func (ft *funcTrans) havocDesignator(ecPre *evalCtx, e Expr, st, pre *State) {
 	heaps := ft.desigHeaps(ecPre, e)
 	h := heaps[0]
 	if h == "?opaque" {
+		return
+	}
+	if sa, ok := e.(*ESliceAll); ok && ecPre.eval(sa.X).Sort.Kind == KMap {
+		for _, hh := range heaps {
+			ft.newHeapVersion(st, hh)
+		}
 		return
 	}
 	if u, ok := e.(*EUnary); ok && u.Op == "deref" {
@@ -568,6 +593,10 @@ func (ft *funcTrans) havocDesignator(ecPre *evalCtx, e Expr, st, pre *State) {
 		w.addFact(fmt.Sprintf("(= %s (store %s %s %s))", nw, old, base.S, fv))
 	case *ESliceAll:
 		base := ecPre.eval(x.X)
+		if base.Sort.Kind == KMap {
+			ft.newHeapVersion(st, h)
+			return
+		}
 		nw := ft.newHeapVersion(st, h)
 		srt := w.heapSorts[h]
 		inner := strings.TrimSuffix(strings.TrimPrefix(srt, "(Array Int "), ")")
@@ -875,6 +904,12 @@ func (ft *funcTrans) frameSpecOf() *frameSpec {
 				fs.allowed[h] = append(fs.allowed[h], frameAllow{ref: ecPre.eval(x.X).S})
 			}
 		case *ESliceAll:
+			if ecPre.eval(x.X).Sort.Kind == KMap {
+				for _, hh := range hs {
+					fs.whole[hh] = true
+				}
+				break
+			}
 			fs.allowed[h] = append(fs.allowed[h], frameAllow{ref: "(s-arr " + ecPre.eval(x.X).S + ")"})
 		case *EIndex:
 			b := ecPre.eval(x.X)
